@@ -1,6 +1,65 @@
-(* Corr/FastqCorr.v — correspondence entry points. *)
+(* Corr/FastqCorr.v — correspondence entry points for package formats/fastq:
+   decode a case value, run the model, encode the observable exactly as
+   harness/fastq.go encodes the implementation's. *)
 From Coq Require Import String.
 From Bio Require Import Base.
 From Bio.Model Require Import Fastq.
 
-Definition corr_fastq : list (string * (val -> val)) := [].
+Definition v_fastq (r : fastq) : val := VL [VB (name r); VB (seq r); VB (quals r)].
+
+(* fastq_write: [name seq quals] -> [ [chunk ...] outcome(marshal bytes) ] *)
+Definition c_fastq_write (v : val) : val :=
+  match v with
+  | VL [VB n; VB s; VB q] =>
+    let r := {| name := n; seq := s; quals := q |} in
+    VL [VL (map VB (write_calls r)); v_outcome VB (marshal_text r)]
+  | _ => v_bad
+  end.
+
+(* fastq_decode: [bytes term] -> items *)
+Definition c_fastq_decode (v : val) : val :=
+  match v with
+  | VL [VB s; t] =>
+    match as_term t with
+    | Some t' => v_items v_fastq (decode s t')
+    | None => v_bad
+    end
+  | _ => v_bad
+  end.
+
+Definition as_fastq (v : val) : option fastq :=
+  match v with
+  | VL [VB n; VB s; VB q] => Some {| name := n; seq := s; quals := q |}
+  | _ => None
+  end.
+
+(* fastq_roundtrip: [[[name seq quals] ...] mode] -> [file items]: the records
+   written one after the other (by Write or MarshalText, [mode] says which; the
+   bytes are the same) and the written file read back. *)
+Definition c_fastq_roundtrip (v : val) : val :=
+  match v with
+  | VL [VL rs; VI _] =>
+    match all_some (map as_fastq rs) with
+    | Some rs' =>
+      match all_some (map (fun r => match marshal_text r with Ok b => Some b | _ => None end) rs') with
+      | Some _ =>
+        let file := concat (concat (map write_calls rs')) in
+        VL [VB file; v_items v_fastq (decode file TEOF)]
+      | None => v_panic
+      end
+    | None => v_bad
+    end
+  | _ => v_bad
+  end.
+
+(* fastq_corrupt: [records k bytes] -> items of Reader on the bytes (EOF);
+   [records] and [k] are for the harness oracle only. *)
+Definition c_fastq_corrupt (v : val) : val :=
+  match v with
+  | VL [VL _; VI _; VB s] => v_items v_fastq (decode s TEOF)
+  | _ => v_bad
+  end.
+
+Definition corr_fastq : list (string * (val -> val)) :=
+  [ ("fastq_write"%string, c_fastq_write); ("fastq_decode"%string, c_fastq_decode);
+    ("fastq_roundtrip"%string, c_fastq_roundtrip); ("fastq_corrupt"%string, c_fastq_corrupt) ].
